@@ -78,118 +78,275 @@ theorem union_eq (a b : Rect) (ha : a.WF) (hb : b.WF) (hs : a.sheet = b.sheet) :
   have e7 : ¬ b.c2 = 0 := by omega
   have e8 : ¬ b.r2 = 0 := by omega
   simp only [hs, ↓reduceIte, ne_eq, not_true_eq_false, and_false, e1, e2, e3, e4, e5, e6, e7, e8, decide_false,
-    Bool.or_self, Bool.false_eq_true, Bool.not_false, Bool.and_false,
+    Bool.or_self, Bool.false_eq_true, Bool.not_false, Bool.and_false, ite_self,
     axis_bounded false a.c1 a.c2 b.c1 b.c2 h1 h2 g1 g2, axis_bounded false a.r1 a.r2 b.r1 b.r2 h3 h4 g3 g4]
 
-/-! SPANMARK -/
 /-! ### whole rows / columns: an unbounded side (both corners 0) reads as 1..MAX -/
 
+/-- `v` lies on a side with corners `x1`, `x2` (0 = unbounded: the whole extent 1..M) -/
+def cov (M x1 x2 v : Nat) : Prop := if x1 = 0 ∨ x2 = 0 then 1 ≤ v ∧ v ≤ M else x1 ≤ v ∧ v ≤ x2
+
+/-- size of a side as `AddressRange.size` computes it -/
+def sideSize (M a1 a2 : Nat) : Int := if a1 = 0 ∨ a2 = 0 then (M : Int) else (a2 : Int) - a1 + 1
+
+def Side (a1 a2 : Nat) : Prop := (1 ≤ a1 ∧ a1 ≤ a2) ∨ (a1 = 0 ∧ a2 = 0)
+
+theorem axis_inter_spec (a1 a2 b1 b2 M : Nat) (hM : 1 ≤ M) (ga : Side a1 a2) (gb : Side b1 b2)
+    (ub : Bool) (hub : ub = true → a1 = 0 ∧ b1 = 0) :
+    (combineAxis true a1 b1 (sideSize M a1 a2) (sideSize M b1 b2) ub = none →
+      ∀ v, ¬ (cov M a1 a2 v ∧ cov M b1 b2 v)) ∧
+    (∀ p, combineAxis true a1 b1 (sideSize M a1 a2) (sideSize M b1 b2) ub = some p →
+      Side p.1 p.2 ∧ (ub = false → 1 ≤ p.1 ∧ p.1 ≤ p.2) ∧
+      ∀ v, cov M p.1 p.2 v ↔ (cov M a1 a2 v ∧ cov M b1 b2 v)) := by
+  unfold Side at ga gb
+  cases ub
+  · clear hub
+    rcases ga with ⟨g1, g2⟩ | ⟨g1, g2⟩ <;> rcases gb with ⟨k1, k2⟩ | ⟨k1, k2⟩
+    · have e1 : ¬ a1 = 0 := by omega
+      have e2 : ¬ a2 = 0 := by omega
+      have e3 : ¬ b1 = 0 := by omega
+      have e4 : ¬ b2 = 0 := by omega
+      simp only [combineAxis, sideSize, cov, e1, e2, e3, e4, or_self, ↓reduceIte, Bool.false_eq_true]
+      split
+      · exact ⟨fun _ v => (by omega), fun p hp => (by cases hp)⟩
+      · refine ⟨fun hp => (by cases hp), fun p hp => ?_⟩
+        simp only [Option.some.injEq] at hp; subst hp
+        refine ⟨Or.inl (by simp only; omega), fun _ => (by simp only; omega), fun v => ?_⟩
+        simp only; rw [if_neg (by omega)]; omega
+    · subst k1; subst k2
+      have e1 : ¬ a1 = 0 := by omega
+      have e2 : ¬ a2 = 0 := by omega
+      simp only [combineAxis, sideSize, cov, e1, e2, or_self, ↓reduceIte, Bool.false_eq_true]
+      split
+      · exact ⟨fun _ v => (by omega), fun p hp => (by cases hp)⟩
+      · refine ⟨fun hp => (by cases hp), fun p hp => ?_⟩
+        simp only [Option.some.injEq] at hp; subst hp
+        refine ⟨Or.inl (by simp only; omega), fun _ => (by simp only; omega), fun v => ?_⟩
+        simp only; rw [if_neg (by omega)]; omega
+    · subst g1; subst g2
+      have e3 : ¬ b1 = 0 := by omega
+      have e4 : ¬ b2 = 0 := by omega
+      simp only [combineAxis, sideSize, cov, e3, e4, or_self, ↓reduceIte, Bool.false_eq_true]
+      split
+      · exact ⟨fun _ v => (by omega), fun p hp => (by cases hp)⟩
+      · refine ⟨fun hp => (by cases hp), fun p hp => ?_⟩
+        simp only [Option.some.injEq] at hp; subst hp
+        refine ⟨Or.inl (by simp only; omega), fun _ => (by simp only; omega), fun v => ?_⟩
+        simp only; rw [if_neg (by omega)]; omega
+    · subst g1; subst g2; subst k1; subst k2
+      simp only [combineAxis, sideSize, cov, or_self, ↓reduceIte, Bool.false_eq_true]
+      split
+      · exact ⟨fun _ v => (by omega), fun p hp => (by cases hp)⟩
+      · refine ⟨fun hp => (by cases hp), fun p hp => ?_⟩
+        simp only [Option.some.injEq] at hp; subst hp
+        refine ⟨Or.inl (by simp only; omega), fun _ => (by simp only; omega), fun v => ?_⟩
+        simp only; rw [if_neg (by omega)]; omega
+  · obtain ⟨g1, k1⟩ := hub rfl
+    have g2 : a2 = 0 := by omega
+    have k2 : b2 = 0 := by omega
+    subst g1; subst g2; subst k1; subst k2
+    simp only [combineAxis, sideSize, cov, or_self, ↓reduceIte]
+    split
+    · exact ⟨fun _ v => (by omega), fun p hp => (by cases hp)⟩
+    · refine ⟨fun hp => (by cases hp), fun p hp => ?_⟩
+      simp only [Option.some.injEq] at hp; subst hp
+      exact ⟨Or.inr ⟨rfl, rfl⟩, fun h => (by cases h), fun v => by simp⟩
+
+instance (a1 a2 : Nat) : Decidable (Side a1 a2) := by unfold Side; infer_instance
+
 /-- a rectangle whose sides are each bounded (1 ≤ lo ≤ hi) or unbounded (both corners 0): `A1:B2`, `A:C`, `1:3` -/
-def Rect.GWF (a : Rect) : Prop :=
-  ((1 ≤ a.c1 ∧ a.c1 ≤ a.c2) ∨ (a.c1 = 0 ∧ a.c2 = 0)) ∧ ((1 ≤ a.r1 ∧ a.r1 ≤ a.r2) ∨ (a.r1 = 0 ∧ a.r2 = 0))
+def Rect.GWF (a : Rect) : Prop := Side a.c1 a.c2 ∧ Side a.r1 a.r2
 
 instance (a : Rect) : Decidable a.GWF := by unfold Rect.GWF; infer_instance
 
-/-- the bounded rectangle an address denotes on the sheet: an unbounded side becomes 1..MAX_COL / 1..MAX_ROW -/
-def Rect.span (a : Rect) : Rect :=
-  ⟨a.sheet, if a.c1 = 0 then 1 else a.c1, if a.r1 = 0 then 1 else a.r1,
-   if a.c1 = 0 ∨ a.c2 = 0 then MAX_COL else a.c2, if a.r1 = 0 ∨ a.r2 = 0 then MAX_ROW else a.r2⟩
-
 theorem wf_gwf (a : Rect) (h : a.WF) : a.GWF := ⟨Or.inl ⟨h.1, h.2.1⟩, Or.inl ⟨h.2.2.1, h.2.2.2⟩⟩
 
-theorem span_wf (a : Rect) (h : a.GWF) : a.span.WF := by
-  obtain ⟨hc, hr⟩ := h
-  unfold Rect.WF Rect.span MAX_COL MAX_ROW Gen.maxCol Gen.maxRow
-  rcases hc with hc | hc <;> rcases hr with hr | hr <;> simp only <;>
-    (have : ¬ a.c1 = 0 ∨ a.c1 = 0 := by omega) <;> (split <;> split <;> split <;> split <;> omega)
+/-- the cells an address denotes on the sheet: an unbounded side spans 1..MAX_COL / 1..MAX_ROW -/
+def Rect.covers (a : Rect) (c : Cell) : Prop := cov MAX_COL a.c1 a.c2 c.col ∧ cov MAX_ROW a.r1 a.r2 c.row
 
-theorem span_of_wf (a : Rect) (h : a.WF) : a.span = a := by
+theorem side_zero {x1 x2 : Nat} (h : Side x1 x2) : (x1 = 0 ∨ x2 = 0) ↔ x1 = 0 := by
+  unfold Side at h; omega
+
+theorem inter_spec_gwf (a b : Rect) (ha : a.GWF) (hb : b.GWF) (hs : a.sheet = b.sheet) :
+    a.inter b ≠ .value ∧
+    (a.inter b = .null → ∀ c, ¬ (a.covers c ∧ b.covers c)) ∧
+    (∀ r, a.inter b = .rect r → r.GWF ∧ r.sheet = a.sheet ∧ (∀ c, r.covers c ↔ (a.covers c ∧ b.covers c)) ∧
+      ((a.c1 ≠ 0 ∨ b.c1 ≠ 0) → 1 ≤ r.c1 ∧ r.c1 ≤ r.c2) ∧ ((a.r1 ≠ 0 ∨ b.r1 ≠ 0) → 1 ≤ r.r1 ∧ r.r1 ≤ r.r2)) := by
+  obtain ⟨hac, har⟩ := ha
+  obtain ⟨hbc, hbr⟩ := hb
+  have hMC : 1 ≤ MAX_COL := by decide
+  have hMR : 1 ≤ MAX_ROW := by decide
+  have key : ∀ (uc ur : Bool) (res : Res), (match combineAxis true a.c1 b.c1 a.width b.width uc, combineAxis true a.r1 b.r1 a.height b.height ur with
+        | some (c1, c2), some (r1, r2) => Res.rect ⟨a.sheet, c1, r1, c2, r2⟩
+        | _, _ => Res.null) = res →
+      (uc = true → a.c1 = 0 ∧ b.c1 = 0) → (ur = true → a.r1 = 0 ∧ b.r1 = 0) →
+      res ≠ .value ∧ (res = .null → ∀ c, ¬ (a.covers c ∧ b.covers c)) ∧
+      (∀ r, res = .rect r → r.GWF ∧ r.sheet = a.sheet ∧ (∀ c, r.covers c ↔ (a.covers c ∧ b.covers c)) ∧
+        (uc = false → 1 ≤ r.c1 ∧ r.c1 ≤ r.c2) ∧ (ur = false → 1 ≤ r.r1 ∧ r.r1 ≤ r.r2)) := by
+    intro uc ur res hres huc hur
+    have sc := axis_inter_spec a.c1 a.c2 b.c1 b.c2 MAX_COL hMC hac hbc uc huc
+    have sr := axis_inter_spec a.r1 a.r2 b.r1 b.r2 MAX_ROW hMR har hbr ur hur
+    have ew : sideSize MAX_COL a.c1 a.c2 = a.width := rfl
+    have ew' : sideSize MAX_COL b.c1 b.c2 = b.width := rfl
+    have eh : sideSize MAX_ROW a.r1 a.r2 = a.height := rfl
+    have eh' : sideSize MAX_ROW b.r1 b.r2 = b.height := rfl
+    rw [ew, ew'] at sc
+    rw [eh, eh'] at sr
+    cases hc : combineAxis true a.c1 b.c1 a.width b.width uc with
+    | none =>
+      rw [hc] at hres; simp only at hres; subst hres
+      refine ⟨by simp, fun _ c h => sc.1 hc c.col ⟨h.1.1, h.2.1⟩, fun r hr => (by cases hr)⟩
+    | some pc =>
+      cases hr : combineAxis true a.r1 b.r1 a.height b.height ur with
+      | none =>
+        rw [hc, hr] at hres; simp only at hres; subst hres
+        refine ⟨by simp, fun _ c h => sr.1 hr c.row ⟨h.1.2, h.2.2⟩, fun r hr => (by cases hr)⟩
+      | some pr =>
+        rw [hc, hr] at hres; simp only at hres; subst hres
+        obtain ⟨gc, bc, vc⟩ := sc.2 pc hc
+        obtain ⟨gr, br, vr⟩ := sr.2 pr hr
+        refine ⟨by simp, fun h => (by cases h), fun r hr => ?_⟩
+        injection hr with hr; subst hr
+        refine ⟨⟨gc, gr⟩, rfl, fun c => ?_, bc, br⟩
+        simp only [Rect.covers]
+        rw [vc c.col, vr c.row]
+        constructor
+        · rintro ⟨⟨x1, x2⟩, ⟨y1, y2⟩⟩; exact ⟨⟨x1, y1⟩, ⟨x2, y2⟩⟩
+        · rintro ⟨⟨x1, y1⟩, ⟨x2, y2⟩⟩; exact ⟨⟨x1, x2⟩, ⟨y1, y2⟩⟩
+  have hsheet : ¬ (a.sheet ≠ [] ∧ b.sheet ≠ [] ∧ a.sheet ≠ b.sheet) := fun h => h.2.2 hs
+  have hsh2 : (if a.sheet ≠ [] then a.sheet else b.sheet) = a.sheet := by split <;> simp [hs]
+  unfold Rect.inter combineCore
+  rw [if_neg hsheet]
+  simp only [hsh2, ↓reduceIte]
+  have za := side_zero hac
+  have zb := side_zero hbc
+  have ya := side_zero har
+  have yb := side_zero hbr
+  have kk := key ((decide (a.c1 = 0) || decide (a.c2 = 0)) && (decide (b.c1 = 0) || decide (b.c2 = 0)))
+    (!((decide (a.c1 = 0) || decide (a.c2 = 0)) && (decide (b.c1 = 0) || decide (b.c2 = 0))) &&
+      ((decide (a.r1 = 0) || decide (a.r2 = 0)) && (decide (b.r1 = 0) || decide (b.r2 = 0)))) _ rfl
+  obtain ⟨k1, k2, k3⟩ := kk
+    (by intro h
+        simp only [Bool.and_eq_true, Bool.or_eq_true, decide_eq_true_eq] at h
+        exact ⟨za.mp h.1, zb.mp h.2⟩)
+    (by intro h
+        simp only [Bool.and_eq_true, Bool.or_eq_true, decide_eq_true_eq, Bool.not_eq_true'] at h
+        exact ⟨ya.mp h.2.1, yb.mp h.2.2⟩)
+  refine ⟨k1, k2, fun r hr => ?_⟩
+  obtain ⟨x1, x2, x3, x4, x5⟩ := k3 r hr
+  refine ⟨x1, x2, x3, fun h => x4 ?_, fun h => x5 ?_⟩
+  · rw [Bool.eq_false_iff]; intro hc
+    simp only [Bool.and_eq_true, Bool.or_eq_true, decide_eq_true_eq] at hc
+    omega
+  · rw [Bool.eq_false_iff]; intro hc
+    simp only [Bool.and_eq_true, Bool.or_eq_true, decide_eq_true_eq, Bool.not_eq_true'] at hc
+    omega
+
+
+/-- for a bounded rectangle `covers` is `contains` -/
+theorem covers_wf (a : Rect) (h : a.WF) (c : Cell) : a.covers c ↔ a.contains c = true := by
   obtain ⟨h1, h2, h3, h4⟩ := h
-  obtain ⟨s, c1, r1, c2, r2⟩ := a
-  simp only at h1 h2 h3 h4
-  have e1 : ¬ c1 = 0 := by omega
-  have e2 : ¬ r1 = 0 := by omega
-  have e3 : ¬ c2 = 0 := by omega
-  have e4 : ¬ r2 = 0 := by omega
-  simp [Rect.span, e1, e2, e3, e4]
-
-/-- `&` / `**` see an address only through its span -/
-theorem combine_span (i : Bool) (a b : Rect) (ha : a.GWF) (hb : b.GWF) :
-    combineCore i a b a.height a.width b.height b.width =
-      combineCore i a.span b.span a.span.height a.span.width b.span.height b.span.width := by
-  have key : ∀ x : Rect, x.GWF →
-      x.span.height = x.height ∧ x.span.width = x.width ∧ x.span.sheet = x.sheet ∧
-      (if x.span.c1 = 0 then (1 : Int) else (x.span.c1 : Int)) = (if x.c1 = 0 then (1 : Int) else (x.c1 : Int)) ∧
-      (if x.span.r1 = 0 then (1 : Int) else (x.span.r1 : Int)) = (if x.r1 = 0 then (1 : Int) else (x.r1 : Int)) := by
-    intro x hx
-    obtain ⟨hc, hr⟩ := hx
-    unfold Rect.height Rect.width Rect.span MAX_COL MAX_ROW Gen.maxCol Gen.maxRow
-    simp only [true_and]
-    refine ⟨?_, ?_, ?_, ?_⟩
-    · rcases hr with hr | hr
-      · have e1 : ¬ x.r1 = 0 := by omega
-        have e2 : ¬ x.r2 = 0 := by omega
-        simp [e1, e2]
-      · simp [hr.1, hr.2]
-    · rcases hc with hc | hc
-      · have e1 : ¬ x.c1 = 0 := by omega
-        have e2 : ¬ x.c2 = 0 := by omega
-        simp [e1, e2]
-      · simp [hc.1, hc.2]
-    · by_cases e : x.c1 = 0 <;> simp [e]
-    · by_cases e : x.r1 = 0 <;> simp [e]
-  obtain ⟨a1, a2, a3, a4, a5⟩ := key a ha
-  obtain ⟨b1, b2, b3, b4, b5⟩ := key b hb
-  unfold combineCore
-  simp only [a1, a2, a3, a4, a5, b1, b2, b3, b4, b5]
-
-theorem inter_span (a b : Rect) (ha : a.GWF) (hb : b.GWF) : a.inter b = a.span.inter b.span :=
-  combine_span true a b ha hb
-
-theorem union_span (a b : Rect) (ha : a.GWF) (hb : b.GWF) : a.union b = a.span.union b.span :=
-  combine_span false a b ha hb
+  have e1 : ¬ (a.c1 = 0 ∨ a.c2 = 0) := by omega
+  have e2 : ¬ (a.r1 = 0 ∨ a.r2 = 0) := by omega
+  simp only [Rect.covers, cov, e1, e2, ↓reduceIte, Rect.contains, Bool.and_eq_true, decide_eq_true_eq]
+  omega
 
 /-- whole columns `c1:c2` against the used area (1,1,mc,mr) of a sheet (for C05's `clip`): no edge condition -/
 theorem inter_unbounded_cols (s : List Char) (c1 c2 mc mr : Nat) (h1 : 1 ≤ c1) (h2 : c1 ≤ c2) (hmc : 1 ≤ mc)
     (hmr : 1 ≤ mr) (hr : mr ≤ MAX_ROW) :
     (⟨s, c1, 0, c2, 0⟩ : Rect).inter ⟨s, 1, 1, mc, mr⟩ =
       if c1 ≤ mc then .rect ⟨s, c1, 1, min c2 mc, mr⟩ else .null := by
-  have ga : (⟨s, c1, 0, c2, 0⟩ : Rect).GWF := ⟨Or.inl ⟨h1, h2⟩, Or.inr ⟨rfl, rfl⟩⟩
-  have gb : (⟨s, 1, 1, mc, mr⟩ : Rect).GWF := wf_gwf _ ⟨Nat.le_refl 1, hmc, Nat.le_refl 1, hmr⟩
-  rw [inter_span _ _ ga gb,
-    inter_eq (Rect.span ⟨s, c1, 0, c2, 0⟩) (Rect.span ⟨s, 1, 1, mc, mr⟩) (span_wf _ ga) (span_wf _ gb) rfl]
   have e1 : ¬ c1 = 0 := by omega
   have e2 : ¬ c2 = 0 := by omega
   have e3 : ¬ mc = 0 := by omega
   have e4 : ¬ mr = 0 := by omega
   unfold MAX_ROW Gen.maxRow at hr
-  simp only [Rect.span, e1, e2, e3, e4, ↓reduceIte, or_self, MAX_ROW, Gen.maxRow,
-    Nat.one_ne_zero]
+  simp only [Rect.inter, combineCore, combineAxis, Rect.height, Rect.width, MAX_ROW, Gen.maxRow, e1, e2, e3, e4,
+    ne_eq, not_true_eq_false, and_false, ↓reduceIte, or_self, or_true, true_or, Nat.one_ne_zero, decide_false,
+    decide_true, Bool.or_self, Bool.false_and, Bool.and_false, Bool.not_false, Bool.false_eq_true, ite_self,
+    Bool.true_and, Bool.and_self]
   by_cases h : c1 ≤ mc
-  · rw [if_pos (by omega), if_pos h]
+  · rw [if_neg (by omega), if_neg (by omega), if_pos h]
     simp only [Res.rect.injEq, Rect.mk.injEq, true_and]; omega
-  · rw [if_neg (by omega), if_neg h]
+  · rw [if_pos (by omega), if_neg h]
 
 /-- whole rows `r1:r2` against the used area (1,1,mc,mr) of a sheet (for C05's `clip`): no edge condition -/
 theorem inter_unbounded_rows (s : List Char) (r1 r2 mc mr : Nat) (h1 : 1 ≤ r1) (h2 : r1 ≤ r2) (hmc : 1 ≤ mc)
     (hmr : 1 ≤ mr) (hc : mc ≤ MAX_COL) :
     (⟨s, 0, r1, 0, r2⟩ : Rect).inter ⟨s, 1, 1, mc, mr⟩ =
       if r1 ≤ mr then .rect ⟨s, 1, r1, mc, min r2 mr⟩ else .null := by
-  have ga : (⟨s, 0, r1, 0, r2⟩ : Rect).GWF := ⟨Or.inr ⟨rfl, rfl⟩, Or.inl ⟨h1, h2⟩⟩
-  have gb : (⟨s, 1, 1, mc, mr⟩ : Rect).GWF := wf_gwf _ ⟨Nat.le_refl 1, hmc, Nat.le_refl 1, hmr⟩
-  rw [inter_span _ _ ga gb,
-    inter_eq (Rect.span ⟨s, 0, r1, 0, r2⟩) (Rect.span ⟨s, 1, 1, mc, mr⟩) (span_wf _ ga) (span_wf _ gb) rfl]
   have e1 : ¬ r1 = 0 := by omega
   have e2 : ¬ r2 = 0 := by omega
   have e3 : ¬ mc = 0 := by omega
   have e4 : ¬ mr = 0 := by omega
   unfold MAX_COL Gen.maxCol at hc
-  simp only [Rect.span, e1, e2, e3, e4, ↓reduceIte, or_self, MAX_COL, Gen.maxCol,
-    Nat.one_ne_zero]
+  simp only [Rect.inter, combineCore, combineAxis, Rect.height, Rect.width, MAX_COL, Gen.maxCol, e1, e2, e3, e4,
+    ne_eq, not_true_eq_false, and_false, ↓reduceIte, or_self, or_true, true_or, Nat.one_ne_zero, decide_false,
+    decide_true, Bool.or_self, Bool.false_and, Bool.and_false, Bool.not_false, Bool.false_eq_true, ite_self,
+    Bool.true_and, Bool.and_self]
   by_cases h : r1 ≤ mr
-  · rw [if_pos (by omega), if_pos h]
-    simp only [Res.rect.injEq, Rect.mk.injEq, true_and, and_true]; omega
-  · rw [if_neg (by omega), if_neg h]
+  · rw [if_neg (by omega), if_neg (by omega), if_pos h]
+    simp only [Res.rect.injEq, Rect.mk.injEq, true_and]; omega
+  · rw [if_neg (by omega), if_pos (by omega), if_neg h]
+
+/-- lower corner as `&` / `**` read it: an unbounded side (0) starts at 1 -/
+def or1 (x : Nat) : Int := if x = 0 then 1 else (x : Int)
+
+/-- one axis of `&` with arbitrary sizes: the result side is unbounded (flag set), or lies inside both operands -/
+theorem axis_inter_bounds (a1 b1 : Nat) (wa wb : Int) (ub : Bool) (p : Nat × Nat)
+    (h : combineAxis true a1 b1 wa wb ub = some p) :
+    (ub = true ∧ p.1 = 0 ∧ p.2 = 0) ∨
+    (ub = false ∧ or1 a1 ≤ p.1 ∧ or1 b1 ≤ p.1 ∧ (p.1 : Int) ≤ p.2 ∧ (p.2 : Int) ≤ or1 a1 + wa - 1 ∧
+      (p.2 : Int) ≤ or1 b1 + wb - 1) := by
+  have hdef : combineAxis true a1 b1 wa wb ub =
+      if min (or1 a1 + wa) (or1 b1 + wb) - 1 < max (or1 a1) (or1 b1) then none
+      else if ub = true then some (0, 0)
+      else some ((max (or1 a1) (or1 b1)).toNat, (min (or1 a1 + wa) (or1 b1 + wb) - 1).toNat) := rfl
+  rw [hdef] at h
+  by_cases hn : min (or1 a1 + wa) (or1 b1 + wb) - 1 < max (or1 a1) (or1 b1)
+  · rw [if_pos hn] at h; cases h
+  · rw [if_neg hn] at h
+    have p1 : 1 ≤ or1 a1 := by unfold or1; split <;> omega
+    have p2 : 1 ≤ or1 b1 := by unfold or1; split <;> omega
+    cases ub
+    · simp only [Bool.false_eq_true, ↓reduceIte, Option.some.injEq] at h
+      subst h
+      refine Or.inr ⟨rfl, ?_⟩
+      simp only; omega
+    · simp only [↓reduceIte, Option.some.injEq] at h
+      subst h
+      exact Or.inl ⟨rfl, rfl, rfl⟩
+
+/-- `&` on arbitrary address objects (for C04): sheets agree, and each side of the result is unbounded — then that
+    side of both operands is — or lies inside that side of both operands -/
+theorem combineCore_inter_bounds (a b : Rect) (ha wa hb wb : Int) (r : Rect)
+    (h : combineCore true a b ha wa hb wb = .rect r) :
+    ¬ (a.sheet ≠ [] ∧ b.sheet ≠ [] ∧ a.sheet ≠ b.sheet) ∧
+    r.sheet = (if a.sheet ≠ [] then a.sheet else b.sheet) ∧
+    ((r.c1 = 0 ∧ r.c2 = 0 ∧ (a.c1 = 0 ∨ a.c2 = 0) ∧ (b.c1 = 0 ∨ b.c2 = 0)) ∨
+      (or1 a.c1 ≤ r.c1 ∧ or1 b.c1 ≤ r.c1 ∧ (r.c1 : Int) ≤ r.c2 ∧ (r.c2 : Int) ≤ or1 a.c1 + wa - 1 ∧
+        (r.c2 : Int) ≤ or1 b.c1 + wb - 1)) ∧
+    ((r.r1 = 0 ∧ r.r2 = 0 ∧ (a.r1 = 0 ∨ a.r2 = 0) ∧ (b.r1 = 0 ∨ b.r2 = 0)) ∨
+      (or1 a.r1 ≤ r.r1 ∧ or1 b.r1 ≤ r.r1 ∧ (r.r1 : Int) ≤ r.r2 ∧ (r.r2 : Int) ≤ or1 a.r1 + ha - 1 ∧
+        (r.r2 : Int) ≤ or1 b.r1 + hb - 1)) := by
+  unfold combineCore at h
+  by_cases hs : a.sheet ≠ [] ∧ b.sheet ≠ [] ∧ a.sheet ≠ b.sheet
+  · rw [if_pos hs] at h; cases h
+  · rw [if_neg hs] at h
+    simp only [↓reduceIte] at h
+    split at h
+    · rename_i c1 c2 r1 r2 hc hr
+      injection h with h; subst h
+      refine ⟨hs, rfl, ?_, ?_⟩
+      · rcases axis_inter_bounds _ _ _ _ _ _ hc with ⟨hu, e1, e2⟩ | ⟨_, hb⟩
+        · simp only [Bool.and_eq_true, Bool.or_eq_true, decide_eq_true_eq] at hu
+          exact Or.inl ⟨e1, e2, hu.1, hu.2⟩
+        · exact Or.inr hb
+      · rcases axis_inter_bounds _ _ _ _ _ _ hr with ⟨hu, e1, e2⟩ | ⟨_, hb⟩
+        · simp only [Bool.and_eq_true, Bool.or_eq_true, decide_eq_true_eq, Bool.not_eq_true'] at hu
+          exact Or.inl ⟨e1, e2, hu.2.1, hu.2.2⟩
+        · exact Or.inr hb
+    · cases h
 
 theorem contains_iff (a : Rect) (c : Cell) :
     a.contains c = true ↔ a.r1 ≤ c.row ∧ c.row ≤ a.r2 ∧ a.c1 ≤ c.col ∧ c.col ≤ a.c2 := by
